@@ -286,6 +286,12 @@ def _loop1(v):
     yield "shared-is-the-room-left", v.shared == S.room(m, i)
     yield "dropped-did-not-fit", forall(0, i, lambda j: S.room(m, j) < 0)
     yield from weighted_is(S, wl, i, m, fwd_at=(i,), bwd_at=(0,))
+    # lemma sum-of-positive-terms (below), instantiated for the whole list: every listed weight is the weight of a
+    # weighted column (clause weighted-lists-only-kept-weighted-columns, just yielded) and so >= 1 (requires);
+    # hence the total that `sum(weight for weight, i in weighted)` computes after this loop is >= len(weighted)
+    if isinstance(wl, Q.SSeq):
+        L = Q.seq_len(wl)
+        cur().assume(Q.comp_psum(wl, 0, L) >= L)
 
 
 def _loop2(v):
@@ -425,6 +431,20 @@ class ascending_suffix_sum:
     def claim(x):
         yield "base", both(x.aq >= (x.K - (x.K - 1)) * x.aq, x.aq >= x.aq)
         yield "step", both(x.aq + x.suf1 >= (x.K - x.q) * x.aq, x.aq + x.suf1 >= x.aq)
+
+
+@lemma("sum-of-positive-terms", property="C19")
+class sum_of_positive_terms:
+    """Induction on k for: a prefix sum S(k) of terms that are each >= 1 is >= k."""
+
+    params = dict(k=Int, sk=Int, t=Int)
+
+    def requires(x):
+        return both(x.k >= 0, x.sk >= x.k, x.t >= 1)
+
+    def claim(x):
+        yield "base", 0 >= 0
+        yield "step", x.sk + x.t >= x.k + 1
 
 
 @lemma("cascade-step", property="C19")
